@@ -21,7 +21,7 @@ class Wb2CsrWorld(World):
                        "Wishbone initiator (seeded closed-loop agent)")
     fault_kinds = ("select_mask_partial", "select_mask_zero", "back_to_back", "spaced",
                    "cyc_without_stb", "stb_without_cyc", "idle_signal_churn",
-                   "second_instance_in_process")
+                   "second_instance_in_process", "release_in_ack_cycle", "domain_reset_mid_transfer")
     assumptions = (
         "Amaranth's Python RTL simulator executes the elaborated netlist faithfully",
         "the Wishbone initiator holds cyc, stb and all request signals stable from the start of a "
@@ -63,6 +63,11 @@ class Wb2CsrWorld(World):
                         "gap": rng.choice([0, 0, 0, 1, 2, 3]),
                         "gap_cyc": rng.below(4), "gap_stb_only": int(rng.chance(0.15)),
                         "churn": rng.bits(32),
+                        # asynchronous initiator: drops cyc and/or stb in the very cycle it sees
+                        # the (registered) ack; 0 = keeps them up until the clock edge
+                        "rel": rng.choice([0, 0, 0, 1, 2, 3]),
+                        # domain reset landing at this sequencer position (None = no reset)
+                        "rst": rng.below(ratio + 2) if rng.chance(0.04) else None,
                         "rd": [rng.bits(cw) | 1 for _ in range(ratio)]})
         return ops
 
@@ -91,7 +96,8 @@ class Wb2CsrWorld(World):
                 pass
             stats.fault("second_instance_in_process")
         wb = dut.wb_bus
-        sim = hw.build_sim(hw.make_top(dut))
+        top, rst = hw.make_top_with_reset(dut)
+        sim = hw.build_sim(top)
         waw = len(wb.adr)
         cmask = (1 << cw) - 1
 
@@ -126,9 +132,18 @@ class Wb2CsrWorld(World):
                         stats.fault("select_mask_zero")
                     elif cur["sel"] != (1 << ratio) - 1:
                         stats.fault("select_mask_partial")
+                rel = 0
+                if cur is not None and pos == ratio + 1:
+                    rel = int(cur.get("rel") or 0) & 3
+                in_reset = cur is not None and cur.get("rst") is not None and \
+                    pos == int(cur["rst"]) % (ratio + 2)
+                p.set(rst, int(in_reset))
                 if cur is not None:
-                    p.set(wb.cyc, 1)
-                    p.set(wb.stb, 1)
+                    # rel: the transfer is over for the initiator the moment ack is visible
+                    p.set(wb.cyc, 0 if rel in (1, 3) else 1)
+                    p.set(wb.stb, 0 if rel in (1, 2) else 1)
+                    if rel:
+                        stats.fault("release_in_ack_cycle")
                     if waw:
                         p.set(wb.adr, cur["adr"])
                     p.set(wb.we, cur["we"])
@@ -213,7 +228,17 @@ class Wb2CsrWorld(World):
                     lanes[k] = pend_r
                 else:
                     pend_r = None
-                if cur is not None:
+                if in_reset:
+                    # the domain (bridge, initiator and CSR target alike) is reset at this edge:
+                    # the transfer is abandoned and everything restarts as from power-up
+                    stats.fault("domain_reset_mid_transfer")
+                    gap = min(int(cur.get("gap", 0)), 4)
+                    gap_op = cur
+                    cur = None
+                    pos = None
+                    pend_r = None
+                    b2b = 0
+                elif cur is not None:
                     if ack:
                         acks_for_cur += 1
                         stats.work += 1
@@ -243,6 +268,10 @@ class Wb2CsrWorld(World):
             yield dict(op, gap=0)
         if op.get("gap_stb_only"):
             yield dict(op, gap_stb_only=0)
+        if op.get("rel"):
+            yield dict(op, rel=0)
+        if op.get("rst") is not None:
+            yield dict(op, rst=None)
         if op.get("dat") not in (0, 1, None):
             yield dict(op, dat=1)
         if op.get("adr"):
